@@ -491,8 +491,11 @@ func parse(file []byte, o Options) (*Key, error) {
 		if k.PRF != PRFName {
 			return nil, fmt.Errorf("unsupported prf %q", k.PRF)
 		}
-		if k.C, err = asInt("kdfparams.c", kp.C.raw); err != nil {
-			return nil, err
+		// a missing c is what every decoder into a plain integer reads as 0: the unspecified region
+		if !absent(kp.C.raw) {
+			if k.C, err = asInt("kdfparams.c", kp.C.raw); err != nil {
+				return nil, err
+			}
 		}
 		if err = CheckPBKDF2(k.C, k.DKLen); err != nil {
 			return nil, err
